@@ -210,13 +210,10 @@ func coverCheck(fr *FuncResult, opts SolveOpts, id int) (string, float64) {
 	if fr.Cover == "" {
 		return "none", 0
 	}
-	script := buildScript(fr, fr.CoverIdx, fr.Cover, "")
+	// E-matching only: a contradiction among the assumptions shows up as unsat quickly, anything else is fine
+	script := buildScript(fr, fr.CoverIdx, fr.Cover, "(set-option :smt.auto_config false)\n(set-option :smt.mbqi false)\n")
 	file := filepath.Join(opts.WorkDir, fmt.Sprintf("cover%d_%d.smt2", os.Getpid(), id))
 	defer os.Remove(file)
-	to := opts.Timeout / 3
-	if to < 2*time.Second {
-		to = 2 * time.Second
-	}
-	st, _, el := runSolver(solvers[0], script, file, to, opts.Seed)
+	st, _, el := runSolver(solvers[0], script, file, 3*time.Second, opts.Seed)
 	return st, el
 }
